@@ -59,7 +59,8 @@ pub fn make_vocab(rng: &mut Rng, g: &GCase, k: VKind) -> Vocab {
             let mut samples = walker::sample_strings(rng, g, &v1, 6, 60);
             samples.extend(vocab::generic_samples());
             let n = 30 + rng.below(400);
-            vocab::vsyn(rng, &samples, n, k == VKind::VsynC, if k == VKind::VsynC { "VsynC" } else { "Vsyn" })
+            let low = if g.has_tag("special_mix") { Some(true) } else { None };
+            vocab::vsyn_ex(rng, &samples, n, k == VKind::VsynC, if k == VKind::VsynC { "VsynC" } else { "Vsyn" }, low)
         }
         VKind::Bpe(i) => {
             let b = bpe_vocabs();
@@ -87,7 +88,8 @@ fn grammar_untagged(rng: &mut Rng, idx: u64) -> GCase {
     if (idx as usize) < c.len() {
         return c[idx as usize].clone();
     }
-    match rng.below(10) {
+    match rng.below(11) {
+        10 => special_mix_grammar(rng, idx),
         0..=2 => {
             let gen = RxGen { allow_algebra: false, allow_raw_not: false, max_depth: 3 };
             let rx = gen_nonempty(rng, &gen);
@@ -113,6 +115,28 @@ fn grammar_untagged(rng: &mut Rng, idx: u64) -> GCase {
         5..=7 => crate::gen_json::random_schema_case(rng, idx),
         _ => crate::gen_cfg::random_cfg_case(rng, idx),
     }
+}
+
+/// text and named special tokens in one sentence: `start: "a" <think> /[a-z]{1,3}/ </think> "!" | ...`
+/// (the vocabulary built for such a grammar puts the special tokens at low ids, see `vocab::vsyn_ex`)
+pub fn special_mix_grammar(rng: &mut Rng, idx: u64) -> GCase {
+    let names: Vec<&str> = vocab::SPECIAL_NAMES[..vocab::SPECIAL_NAMES.len() - 1].iter().copied().filter(|n| !n.contains('"')).collect();
+    let lits = ["\"a\"", "\"bc\"", "\"x y\"", "/[a-z]{1,3}/", "/[0-9]+/", "\"<\"", "\"\\n\""];
+    let mut alts = vec![];
+    for a in 0..1 + rng.below(3) {
+        let mut parts: Vec<String> = vec![];
+        // different first bytes per alternative keep the alternatives apart
+        parts.push(format!("\"{}\"", ["p", "q", "r"][a]));
+        for _ in 0..2 + rng.below(4) {
+            if rng.chance(1, 2) {
+                parts.push(rng.pick(&names).to_string());
+            } else {
+                parts.push(rng.pick(&lits).to_string());
+            }
+        }
+        alts.push(parts.join(" "));
+    }
+    GCase::lark(&format!("specmix{idx}"), &format!("start: {}\n", alts.join("\n    | "))).tag("special_token_ref").tag("special_mix")
 }
 
 pub fn n_corpus() -> u64 {
